@@ -90,6 +90,31 @@ def signature_census(rep, idx):
             rep.bad("C20.4", cls.site, f"{cls.qual}: create() round-trips",
                     "create() is overridden but __eq__ is not: the interface it returns carries a signature object of its own, which the "
                     "inherited identity comparison never finds equal to the original", line=cr.node.lineno)
+        elif eq is None and not any(b.method("__eq__") is not None for b in idx.bases_of(cls)):
+            # wiring.Signature.__eq__ compares instances of a *derived* class by identity ("this will usually be overridden in a
+            # derived class"): without a value-based __eq__, two signatures built from the same parameters are unequal, and so are
+            # the signatures of two components that have such a member
+            init = cls.method("__init__")
+            params = [p_ for p_ in (init.params if init is not None else []) if p_ != "self"]
+            rep.bad("C20.4", cls.site, f"{cls.qual}: signatures with equal parameters are equal",
+                    f"{cls.qual} derives from wiring.Signature and defines no __eq__: the inherited comparison falls back to identity for "
+                    f"derived classes, so {cls.qual}({', '.join(params)}) == {cls.qual}({', '.join(params)}) is False for two objects built "
+                    "from the same parameters", line=cls.node.lineno)
+        elif eq is not None and cls.method("__init__") is not None and [p_ for p_ in cls.method("__init__").params if p_ != "self"] == []:
+            # a signature class without parameters: all its instances are equal, and nothing else is
+            rets = [r_ for r_ in ast.walk(eq.node) if isinstance(r_, ast.Return)]
+            other = eq.params[1] if len(eq.params) > 1 else "other"
+            v = ir.norm(ir.from_ast(rets[0].value, {})) if len(rets) == 1 and rets[0].value is not None else None
+            want = [ir.norm(ir.parse(t)) for t in (f"isinstance({other}, {cls.name})", f"isinstance({other}, {cls.qual})",
+                                                  f"type({other}) is type(self)", f"type({other}) is {cls.name}",
+                                                  f"type(self) is type({other})")]
+            const = v is not None and v[0] == 'const'
+            ident = v in [ir.norm(ir.parse(t)) for t in (f"self is {other}", f"{other} is self")]
+            rep.form(v in want, "C20.4", eq.site, f"{cls.qual}.__eq__ is true exactly for another {cls.qual}",
+                     f"returns {ir.show(v) if v is not None else 'through several paths'}",
+                     wrong=(f"__eq__ returns the constant {v[1]!r}: " + ("every object compares equal to a pin signature" if v[1] else
+                                                                          "two signatures without parameters must be equal")) if const else
+                     ("__eq__ compares by identity: two signatures built from the same (empty) parameter tuple are unequal" if ident else None))
         elif cr is not None and cls.site not in tabled:
             rep.unk("C20.4", cls.site, f"{cls.qual}: create() / __eq__ agree on the defining parameters",
                     "a signature class with its own create() that is not in the role table: its parameter round-trip is not verified")
